@@ -3,7 +3,7 @@
    failing or panicking lines, and for every outcome of the load (ok, error, panic). *)
 From Coq Require Import List String NArith ZArith Bool.
 From AM Require Import Rust.Ast Gen.Records Gen.Deps Ref.Load Ref.Sys Proofs.SysGrows Proofs.SysFrame Proofs.SysRecs
-  Proofs.SysReload Tie.Records Tie.Erasure Tie.Static Gen.Dirs Tie.Dirs.
+  Proofs.SysReload Tie.Records Tie.Erasure Tie.Static Gen.Dirs Tie.Dirs Gen.Asset Gen.Error Tie.Error Tie.LoadFromSource.
 Import ListNotations.
 
 (* values already cached are untouched, whatever happens *)
@@ -69,3 +69,12 @@ Theorem C09_code_directory_faults_propagate :
 Proof.
   destruct dirs_as_specified as (H1 & _ & _ & _ & _ & H2 & H3). exact (conj H2 (conj H3 H1)).
 Qed.
+
+(* a read that fails -- whatever the kind: not found, interrupted, anything else -- is one failed
+   attempt of that extension, reported through the error folding; the printed load_from_source never
+   retries it (bounded exhaustive tie: every extension list up to 3, every outcome per extension) *)
+Theorem C09_code_read_faults_are_reported_not_retried :
+  forallb (fun atts => outcome_eqb (gen_load atts false) (ref_load atts false)
+                       && outcome_eqb (gen_load atts true) (ref_load atts true)) all_cases = true
+  /\ List.length all_cases = 156%nat.
+Proof. exact load_from_source_bounded_tie. Qed.
